@@ -1258,6 +1258,8 @@ static int process_table(fb_parser_t *P, fb_compound_type_t *ct)
                 id_failed = normal_field;
             } else if (field_marker[member->id]) {
                 error_tok(P, m->ident, "id attribute value conflicts with another field");
+                /* Must block the reordering by id below: duplicates leave holes in the index. */
+                id_failed = 1;
             } else {
                 field_marker[member->id] = normal_field;
             }
@@ -1364,7 +1366,8 @@ static int process_table(fb_parser_t *P, fb_compound_type_t *ct)
         /* Size efficient ordering. */
         ct->ordered_members = align_order_members(P, (fb_member_t *)ct->members);
     }
-    if (!id_failed && need_id && count > 0) {
+    /* Fields skipped by an earlier error have no id recorded: the index would have holes. */
+    if (!id_failed && need_id && count > 0 && !P->failed) {
         field_index = P->tmp_field_index;
         memset(field_index, 0, sizeof(field_index[0]) * (size_t)P->opts.vt_max_count);
         /*
